@@ -219,21 +219,22 @@ structure Run (β : Type) where
   rc  : Int
   ems : List Em
 
-/-- A whole stream: `script` = the chunks that arrive, one handler call after each arrival (an
-    empty chunk = a call that finds nothing new: EAGAIN if the descriptor is empty); then the
-    remote side closes, the loop drains the descriptor, and `_flush_output` runs. -/
+/-- one arrival: `chunk` is appended to what the descriptor holds, then the handler runs once
+    (an empty chunk = a call that finds nothing new: EAGAIN if the descriptor is empty) -/
+def feedStep (ops : BufOps β) (cfg : Cfg) (host : Bytes) (strm : Nat) (readRc : Bool)
+    (st : Stream β × Int × List Em) (chunk : Bytes) : Stream β × Int × List Em :=
+  let r := handle ops cfg host strm readRc { st.1 with pipe := st.1.pipe ++ chunk } st.2.1
+  (r.2.1, r.2.2.1, st.2.2 ++ r.2.2.2)
+
+/-- A whole stream: `script` = the chunks that arrive, one handler call after each arrival; then
+    the remote side closes, the loop drains the descriptor, and `_flush_output` runs. -/
 def runStream (ops : BufOps β) (cfg : Cfg) (host t0host : Bytes) (strm : Nat) (readRc : Bool)
     (b0 : β) (script : List Bytes) : Run β :=
-  let st0 : Stream β × Int × List Em := ({ buf := b0, pipe := [], weof := false, closed := false }, 0, [])
-  let st := script.foldl (fun (st : Stream β × Int × List Em) chunk =>
-      let (s, rc, acc) := st
-      let (_, s', rc', e) := handle ops cfg host strm readRc { s with pipe := s.pipe ++ chunk } rc
-      (s', rc', acc ++ e)) st0
-  let (s, rc, acc) := st
-  let (_, _, s', rc', acc') :=
-    drain ops cfg host strm readRc (s.pipe.length + 1) { s with weof := true } rc acc 0
-  let (b, e) := flushOutput ops cfg host t0host strm s'.buf rc'
-  { buf := b, rc := rc', ems := acc' ++ e }
+  let st := script.foldl (feedStep ops cfg host strm readRc)
+    ({ buf := b0, pipe := [], weof := false, closed := false }, 0, [])
+  let dr := drain ops cfg host strm readRc (st.1.pipe.length + 1) { st.1 with weof := true } st.2.1 st.2.2 0
+  let fl := flushOutput ops cfg host t0host strm dr.2.2.1.buf dr.2.2.2.1
+  { buf := fl.1, rc := dr.2.2.2.1, ems := dr.2.2.2.2 ++ fl.2 }
 
 /-! ### instance 1: the index-level model of cbuf.c -/
 
@@ -266,21 +267,25 @@ def wfdRequest (size used : Nat) : Nat :=
   let free := size - used
   if free = 0 then min size Gen.CBUF_CHUNK else free
 
+/-- capacity and allocation after the growth step `cbuf_writer` performs before it reads:
+    the buffer grows only when the request exceeds the free space (i.e. when it is full) -/
+def PBuf.grown (b : PBuf) : Nat × Nat :=
+  let free := b.f.size - b.f.q.length
+  let req := wfdRequest b.f.size b.f.q.length
+  if req > free ∧ b.f.size < b.f.maxsize then growPolicy b.f.size b.alloc b.f.maxsize (req - free)
+  else (b.f.size, b.alloc)
+
 /-- `cbuf_write_from_fd(cb, fd, -1, &dropped)`: the policy (request, growth, bytes taken = what is
     available up to the request) is cbuf.c's; what happens to the bytes is `Cbuf.Spec.writeFromFd`.
-    `-2` marks an answer the specification rejects (`Lemmas.wfd_ok`: impossible in the relay). -/
+    `-2` marks an answer the specification rejects (`FifoLemmas.wfd_fifo`: impossible in the relay). -/
 def PBuf.wfd (b : PBuf) (avail : Bytes) (eof : Bool) : Int × Nat × PBuf :=
-  let free := b.f.size - b.f.q.length
   let req := wfdRequest b.f.size b.f.q.length
   if req = 0 then (0, 0, b)
   else
-    let (sz, al) :=
-      if req > free ∧ b.f.size < b.f.maxsize then growPolicy b.f.size b.alloc b.f.maxsize (req - free)
-      else (b.f.size, b.alloc)
     let taken : Int :=
       if avail.isEmpty then (if eof then 0 else -1) else ((min req avail.length : Nat) : Int)
-    match Cbuf.Spec.writeFromFd b.f (-1) avail eof taken sz with
-    | some (r, d, f') => (r, d, { f := f', alloc := al })
+    match Cbuf.Spec.writeFromFd b.f (-1) avail eof taken b.grown.1 with
+    | some (r, d, f') => (r, d, { f := f', alloc := b.grown.2 })
     | none => (-2, 0, b)
 
 def fifoOps : BufOps PBuf where
